@@ -3,6 +3,10 @@ Same harness binary and Coq area as C03; the generators are read-heavier and Ser
 and the oracle is the dependency-graph / serial-replay one."""
 from checks import c03
 
+REQ_PROPS = ["GV.Props.Props_C04"]
+REQ_RUN = ["GV.Tm.Run"]
+BINS = ["c03"]
+
 
 def run(tier, seed):
     return c03.tm_flow("C04", tier, seed,
